@@ -28,8 +28,8 @@ Definition set_time (e : event) (t : Z) : event :=
 Definition set_type (e : event) (ty : etype) : event :=
   mkEvent ty (e_time e) (e_ch e) (e_v1 e) (e_v2 e) (e_v3 e) (e_data e).
 
-(* Event::sysex(time, data, checksum_mode): values `as u8`; in checksum mode -1 opens the summed
-   region and -2 closes it, emitting (128 - (sum & 0x7F)) & 0x7F *)
+(* Event::sysex(time, data, checksum_mode): values `as u8`; in checksum mode -1 opens a summed
+   region (sum from 0) and -2 closes it, emitting (128 - (sum & 0x7F)) & 0x7F *)
 Fixpoint sysex_sum_loop (vs : list Z) (flag : bool) (sum : Z) : list byte :=
   match vs with
   | [] => []
@@ -37,7 +37,7 @@ Fixpoint sysex_sum_loop (vs : list Z) (flag : bool) (sum : Z) : list byte :=
       if flag && (n =? -2) then as_u8 (Z.land (128 - Z.land sum 127) 127) :: sysex_sum_loop r false sum
       else
         let sum' := if flag then sum + n else sum in
-        if n =? -1 then sysex_sum_loop r true sum'
+        if n =? -1 then sysex_sum_loop r true 0      (* every {..} group has its own checksum *)
         else as_u8 n :: sysex_sum_loop r flag sum'
   end.
 Definition ev_sysex (time : Z) (vs : list Z) (checksum_mode : bool) : event :=
